@@ -340,9 +340,14 @@ func (c *context) RecvMsg() (*protocol.Message, error) {
 		c.cond.Wait()
 	}
 
-	m := c.repMsg
-	c.reqID = 0
-	c.repMsg = nil
+	var m *protocol.Message
+	if id == c.reqID {
+		// Only consume the state of the request we were waiting for; a
+		// newer Send has already replaced it otherwise.
+		m = c.repMsg
+		c.reqID = 0
+		c.repMsg = nil
+	}
 	c.receiveWait = false
 	c.cond.Broadcast()
 
